@@ -77,6 +77,18 @@ fn directed_scripts(corpus: &[String], rng: &mut Rng) -> Vec<(String, Script)> {
                        Cmd::Position(root()), Cmd::GoMovetime(2), Cmd::Await, Cmd::Quit],
             delays: vec![("TIMER_WAKE".into(), d)], checked_build: false }));
     }
+    // the timer of an earlier timed search that ended early (stop / depth limit) is still asleep
+    // when a later unlimited search runs: that search must not be ended by it
+    for t in [500u64, 1100] {
+        v.push((format!("stale-timer-infinite/stop/{t}ms"), Script {
+            cmds: vec![Cmd::Position(root()), Cmd::GoMovetime(t), Cmd::SleepMs(60), Cmd::Stop, Cmd::Position(root2()), Cmd::GoInfinite,
+                       Cmd::SleepMs(t + 500), Cmd::IsReady, Cmd::Stop, Cmd::Position(root()), Cmd::GoDepth(2), Cmd::Await, Cmd::Quit],
+            delays: vec![], checked_build: false }));
+        v.push((format!("stale-timer-infinite/depth/{t}ms"), Script {
+            cmds: vec![Cmd::Position(root()), Cmd::GoRaw(format!("go depth 2 movetime {t}")), Cmd::Await, Cmd::Position(root2()), Cmd::GoInfinite,
+                       Cmd::SleepMs(t + 500), Cmd::IsReady, Cmd::Stop, Cmd::Position(root()), Cmd::GoDepth(2), Cmd::Await, Cmd::Quit],
+            delays: vec![], checked_build: false }));
+    }
     // unlimited search on a tiny position: deepens past depth 30 within a second
     for f in ["8/2k5/8/8/8/8/3K4/8 w - - 0 1", "8/8/8/4k3/8/8/4P3/4K3 w - - 0 1", "8/8/4k3/4p3/4P3/4K3/8/8 w - - 0 1"] {
         for checked in [false, true] {
@@ -250,6 +262,22 @@ fn report_session(out: &mut Out, prop: &str, name: &str, script: &Script, res: &
     for (code, msg) in &res.faults {
         if seen.insert(code.clone()) {
             out.viol(prop, &format!("{prop}|{code}|{name}"), &format!("[{name}] {msg}"), case(json!(code)));
+        }
+    }
+    // A `go infinite` has neither a budget nor a depth limit: its bestmove may come before `stop`
+    // only for the reasons the search itself ends for (single reply, mate score, depth cap).
+    for g in res.gos.iter().filter(|g| g.ended_by == "spontaneous") {
+        let Some(root) = &g.root else { continue };
+        let Some(p) = root.shadow() else { continue };
+        // a repetition pattern in the record can leave a single candidate although several moves are legal
+        let reversible = root.moves.iter().any(|m| m.len() == 4 && root.moves.iter().any(|o| o.len() == 4 && o[0..2] == m[2..4] && o[2..4] == m[0..2]));
+        let last_depth = g.depth_lines.last().and_then(|d| d.trim().parse::<u32>().ok()).unwrap_or(0);
+        let last_score = g.score_lines.last().and_then(|d| d.trim().parse::<i64>().ok()).unwrap_or(0);
+        out.add("infinite_searches_that_ended_before_stop", 1);
+        if p.legal_moves().len() >= 2 && !reversible && last_depth < 60 && last_score.abs() < 30000 {
+            out.viol(prop, &format!("{prop}|spontaneous-bestmove|{name}"),
+                &format!("[{name}] `go infinite` was answered by `bestmove {}` before any `stop` was sent (last depth {last_depth}, last score {last_score}, {} legal moves: not a single reply, not a mate score, not the depth cap)", g.bestmove.clone().unwrap_or_default(), p.legal_moves().len()),
+                case(json!("spontaneous-bestmove")));
         }
     }
     if name.starts_with("timer-before-raise") {
